@@ -5,6 +5,7 @@ import (
 	"go/constant"
 	"go/token"
 	"go/types"
+	"os"
 	"sort"
 	"strings"
 
@@ -22,7 +23,7 @@ func QualName(fn *ssa.Function) string {
 	if o := fn.Origin(); o != nil {
 		fn = o
 	}
-	return fn.String()
+	return Active.CanonQual(fn)
 }
 
 // Rel strips the module path from a qualified name for display and for obligation keys.
@@ -89,7 +90,7 @@ func typeIs(t types.Type, qual string) bool {
 	if n, ok := t.(*types.Named); ok {
 		o := n.Obj()
 		if o.Pkg() != nil {
-			return o.Pkg().Path()+"."+o.Name() == qual
+			return o.Pkg().Path()+"."+Active.CanonTypeName(o) == qual
 		}
 		return o.Name() == qual
 	}
@@ -108,8 +109,8 @@ func MethodCallName(i ssa.Instruction) (recv types.Type, name string) {
 	if c.IsInvoke() {
 		return c.Value.Type(), c.Method.Name()
 	}
-	if f := c.StaticCallee(); f != nil && f.Signature.Recv() != nil {
-		return f.Signature.Recv().Type(), f.Name()
+	if f := c.StaticCallee(); f != nil && Active.RecvOf(f) != nil {
+		return Active.RecvOf(f), Active.CanonName(f)
 	}
 	return nil, ""
 }
@@ -123,7 +124,7 @@ func Args(i ssa.Instruction) []ssa.Value {
 	if c.IsInvoke() {
 		return c.Args
 	}
-	if f := c.StaticCallee(); f != nil && f.Signature.Recv() != nil && len(c.Args) > 0 {
+	if f := c.StaticCallee(); f != nil && Active.RecvOf(f) != nil && len(c.Args) > 0 {
 		return c.Args[1:]
 	}
 	return c.Args
@@ -138,7 +139,7 @@ func Receiver(i ssa.Instruction) ssa.Value {
 	if c.IsInvoke() {
 		return c.Value
 	}
-	if f := c.StaticCallee(); f != nil && f.Signature.Recv() != nil && len(c.Args) > 0 {
+	if f := c.StaticCallee(); f != nil && Active.RecvOf(f) != nil && len(c.Args) > 0 {
 		return c.Args[0]
 	}
 	return nil
@@ -339,7 +340,205 @@ func isBool(t types.Type) bool {
 // Dominated reports whether every path from the function entry to target passes an edge on which
 // fact holds (edge-cut formulation; insensitive to if/switch/short-circuit form).
 func Dominated(target ssa.Instruction, fact CondFact) bool {
-	return !ReachableFromEntry(target, CutWhere(fact))
+	return !reachablePhiAware(target, fact)
+}
+
+// reachablePhiAware is ReachableFromEntry(target, CutWhere(fact)) with one refinement: a block whose branch condition is computed
+// from phis of that same block is visited once per incoming edge, with the phis replaced by the value that edge supplies. So
+//
+//	err = φ(e1 from B1, e2 from B2, nil from B3);  if err != nil { return } ; S
+//
+// (the shape left by a helper that returns its first error, after inlining, and by every "merged error variable") establishes
+// "e1 == nil" at S for the paths that come through B1, and the paths through B3 cannot take the true edge at all: edges that are
+// infeasible for the incoming value are removed. Only infeasible paths are dropped, so the answer stays a sound over-approximation
+// of reachability.
+func reachablePhiAware(target ssa.Instruction, fact CondFact) bool {
+	fn := target.Parent()
+	if len(fn.Blocks) == 0 {
+		return false
+	}
+	found := false
+	Explore(fn.Blocks[0], -1, fact, func(b *ssa.BasicBlock) bool {
+		if b == target.Block() {
+			found = true
+			return false
+		}
+		return !found
+	})
+	return found
+}
+
+// Explore walks the CFG from block start (entered through its pred-th incoming edge, -1 = unknown), skipping the edges on which
+// fact is established (fact may be nil) and the edges that are infeasible for the value a phi-controlled branch received on the
+// incoming edge. visit is called for every (block, incoming edge) state reached; returning false does not expand that block.
+func Explore(start *ssa.BasicBlock, pred int, fact CondFact, visit func(*ssa.BasicBlock) bool) {
+	fn := start.Parent()
+	type state struct {
+		b    *ssa.BasicBlock
+		pred int
+	}
+	needs := map[*ssa.BasicBlock]bool{}
+	for _, b := range fn.Blocks {
+		if iff, ok := b.Instrs[len(b.Instrs)-1].(*ssa.If); ok && mentionsPhiOf(iff.Cond, b, 4) {
+			needs[b] = true
+		}
+	}
+	if !needs[start] {
+		pred = -1
+	}
+	seen := map[state]bool{{start, pred}: true}
+	work := []state{{start, pred}}
+	for len(work) > 0 {
+		s := work[len(work)-1]
+		work = work[:len(work)-1]
+		if !visit(s.b) {
+			continue
+		}
+		iff, _ := s.b.Instrs[len(s.b.Instrs)-1].(*ssa.If)
+		for idx, succ := range s.b.Succs {
+			if iff != nil {
+				// the fact may be stated about the merged value itself (original condition) or about what it merges (specialised)
+				if fact != nil {
+					t, f := evalFact(iff.Cond, fact)
+					if (idx == 0 && t) || (idx == 1 && f) {
+						continue
+					}
+				}
+				if s.pred >= 0 {
+					cond := specialise(iff.Cond, s.b, s.pred, 4)
+					if k, isConst := constCond(cond); isConst {
+						if (idx == 0 && !k) || (idx == 1 && k) {
+							continue // infeasible for the incoming value
+						}
+					} else if cond != iff.Cond && fact != nil {
+						t, f := evalFact(cond, fact)
+						if (idx == 0 && t) || (idx == 1 && f) {
+							continue
+						}
+					}
+				}
+			}
+			np := -1
+			if needs[succ] {
+				np = PredIndex(s.b, idx)
+			}
+			st := state{succ, np}
+			if !seen[st] {
+				seen[st] = true
+				work = append(work, st)
+			}
+		}
+	}
+}
+
+// PredIndex: the index, among the predecessors of b.Succs[idx], of the edge that is b's idx-th successor edge.
+func PredIndex(b *ssa.BasicBlock, idx int) int {
+	succ := b.Succs[idx]
+	n := 0
+	for j := 0; j < idx; j++ {
+		if b.Succs[j] == succ {
+			n++
+		}
+	}
+	for j, pb := range succ.Preds {
+		if pb == b {
+			if n == 0 {
+				return j
+			}
+			n--
+		}
+	}
+	return -1
+}
+
+func mentionsPhiOf(v ssa.Value, b *ssa.BasicBlock, depth int) bool {
+	if depth == 0 || v == nil {
+		return false
+	}
+	switch x := v.(type) {
+	case *ssa.Phi:
+		return x.Block() == b
+	case *ssa.UnOp:
+		return x.Op == token.NOT && mentionsPhiOf(x.X, b, depth-1)
+	case *ssa.BinOp:
+		return mentionsPhiOf(x.X, b, depth-1) || mentionsPhiOf(x.Y, b, depth-1)
+	case *ssa.ChangeType:
+		return mentionsPhiOf(x.X, b, depth-1)
+	case *ssa.Convert:
+		return mentionsPhiOf(x.X, b, depth-1)
+	}
+	return false
+}
+
+// specialise rewrites cond for the paths that enter block b through its pred-th incoming edge.
+func specialise(v ssa.Value, b *ssa.BasicBlock, pred, depth int) ssa.Value {
+	if depth == 0 || v == nil {
+		return v
+	}
+	switch x := v.(type) {
+	case *ssa.Phi:
+		if x.Block() == b && pred < len(x.Edges) {
+			return x.Edges[pred]
+		}
+	case *ssa.UnOp:
+		if x.Op == token.NOT {
+			if y := specialise(x.X, b, pred, depth-1); y != x.X {
+				return &ssa.UnOp{Op: token.NOT, X: y}
+			}
+		}
+	case *ssa.BinOp:
+		nx, ny := specialise(x.X, b, pred, depth-1), specialise(x.Y, b, pred, depth-1)
+		if nx != x.X || ny != x.Y {
+			return &ssa.BinOp{Op: x.Op, X: nx, Y: ny}
+		}
+	case *ssa.ChangeType:
+		if y := specialise(x.X, b, pred, depth-1); y != x.X {
+			return y
+		}
+	case *ssa.Convert:
+		if y := specialise(x.X, b, pred, depth-1); y != x.X {
+			if _, isConst := y.(*ssa.Const); !isConst {
+				return y
+			}
+		}
+	}
+	return v
+}
+
+// constCond decides conditions that are constant after specialisation: true/false, !const, const ==/!= const (incl. nil == nil).
+func constCond(v ssa.Value) (bool, bool) {
+	switch x := v.(type) {
+	case *ssa.Const:
+		if x.Value != nil && x.Value.Kind() == constant.Bool {
+			return constant.BoolVal(x.Value), true
+		}
+	case *ssa.UnOp:
+		if x.Op == token.NOT {
+			if k, ok := constCond(x.X); ok {
+				return !k, true
+			}
+		}
+	case *ssa.BinOp:
+		if x.Op != token.EQL && x.Op != token.NEQ {
+			return false, false
+		}
+		cx, okx := x.X.(*ssa.Const)
+		cy, oky := x.Y.(*ssa.Const)
+		if !okx || !oky {
+			return false, false
+		}
+		var eq bool
+		switch {
+		case cx.Value == nil && cy.Value == nil:
+			eq = true
+		case cx.Value == nil || cy.Value == nil:
+			return false, false
+		default:
+			eq = constant.Compare(cx.Value, token.EQL, cy.Value)
+		}
+		return eq == (x.Op == token.EQL), true
+	}
+	return false, false
 }
 
 // CmpFact builds a CondFact for "X op Y" comparisons: match receives the operator normalised so that
@@ -429,14 +628,149 @@ func EnumPaths(fn *ssa.Function, maxVisit, limit int, f func(Path)) bool {
 	count := 0
 	visits := map[*ssa.BasicBlock]int{}
 	var cur Path
-	var rec func(b *ssa.BasicBlock) bool
-	rec = func(b *ssa.BasicBlock) bool {
+	// Infeasible paths are not delivered. A path is infeasible when it takes a branch whose condition, with every phi replaced
+	// by the value supplied on the edge this path actually came through, is constant the other way (nil != nil, !false), or
+	// contradicts the outcome the same path already took for the same comparison of the same values (the shape left by inlined
+	// helpers:  if e1 != nil { r = e1; break } ... err = φ(.., e1, ..); if err != nil ...). Decisions are forgotten when the
+	// path re-enters the block that defines one of the compared values (next loop iteration = new dynamic value).
+	type decision struct {
+		x, y ssa.Value
+		eq   bool
+	}
+	var decided []decision
+	entered := map[*ssa.BasicBlock]int{} // pred index of the most recent entry
+	var resolve func(v ssa.Value, depth int) ssa.Value
+	resolve = func(v ssa.Value, depth int) ssa.Value {
+		for depth > 0 {
+			depth--
+			switch x := v.(type) {
+			case *ssa.Phi:
+				k, ok := entered[x.Block()]
+				if !ok || k < 0 || k >= len(x.Edges) {
+					return v
+				}
+				v = x.Edges[k]
+				continue
+			case *ssa.ChangeType:
+				v = x.X
+				continue
+			case *ssa.MakeInterface:
+				if _, isConst := x.X.(*ssa.Const); !isConst {
+					v = x.X
+					continue
+				}
+			}
+			break
+		}
+		return v
+	}
+	// normal form of a condition: (x, y, eq) meaning the condition is true iff (x == y) == eq; y == nil for a bare boolean x
+	var normal func(c ssa.Value, depth int) (x, y ssa.Value, eq, ok bool)
+	normal = func(c ssa.Value, depth int) (ssa.Value, ssa.Value, bool, bool) {
+		if depth == 0 {
+			return nil, nil, false, false
+		}
+		c = resolve(c, 6)
+		switch v := c.(type) {
+		case *ssa.UnOp:
+			if v.Op == token.NOT {
+				x, y, eq, ok := normal(v.X, depth-1)
+				return x, y, !eq, ok
+			}
+		case *ssa.BinOp:
+			if v.Op == token.EQL || v.Op == token.NEQ {
+				x, y := resolve(v.X, 6), resolve(v.Y, 6)
+				// b == true / b != false ...
+				if k, isK := y.(*ssa.Const); isK && k.Value != nil && k.Value.Kind() == constant.Bool {
+					bx, by, beq, ok := normal(x, depth-1)
+					if ok {
+						if constant.BoolVal(k.Value) != (v.Op == token.EQL) {
+							beq = !beq
+						}
+						return bx, by, beq, true
+					}
+				}
+				return x, y, v.Op == token.EQL, true
+			}
+			return nil, nil, false, false
+		}
+		if isBool(c.Type()) {
+			return c, nil, true, true
+		}
+		return nil, nil, false, false
+	}
+	feasible := func(b *ssa.BasicBlock, idx int) (bool, *decision) {
+		iff, ok := b.Instrs[len(b.Instrs)-1].(*ssa.If)
+		if !ok {
+			return true, nil
+		}
+		x, y, eq, ok := normal(iff.Cond, 4)
+		if !ok {
+			return true, nil
+		}
+		want := eq == (idx == 0) // taking this edge means (x == y) == want   (for a bare boolean: x is want)
+		// constants
+		if y == nil {
+			if k, isK := x.(*ssa.Const); isK && k.Value != nil && k.Value.Kind() == constant.Bool {
+				return constant.BoolVal(k.Value) == want, nil
+			}
+		} else {
+			cx, okx := x.(*ssa.Const)
+			cy, oky := y.(*ssa.Const)
+			if okx && oky {
+				switch {
+				case cx.Value == nil && cy.Value == nil:
+					return want, nil
+				case cx.Value != nil && cy.Value != nil:
+					return constant.Compare(cx.Value, token.EQL, cy.Value) == want, nil
+				}
+			}
+		}
+		for _, d := range decided {
+			if (sameOperand(d.x, x) && sameOperand(d.y, y)) || (y != nil && sameOperand(d.x, y) && sameOperand(d.y, x)) {
+				if d.eq != want {
+					return false, nil
+				}
+				return true, nil
+			}
+		}
+		return true, &decision{x, y, want}
+	}
+	definedIn := func(v ssa.Value, b *ssa.BasicBlock) bool {
+		if v == nil {
+			return false
+		}
+		i, ok := v.(ssa.Instruction)
+		return ok && i.Block() == b
+	}
+	var rec func(b *ssa.BasicBlock, pred int) bool
+	rec = func(b *ssa.BasicBlock, pred int) bool {
 		if visits[b] >= maxVisit {
 			return true
 		}
 		visits[b]++
 		cur = append(cur, b)
-		defer func() { visits[b]--; cur = cur[:len(cur)-1] }()
+		oldEntered, hadEntered := entered[b]
+		entered[b] = pred
+		// forget decisions about values this block (re)defines
+		saved := decided
+		var kept []decision
+		for _, d := range decided {
+			if !definedIn(d.x, b) && !definedIn(d.y, b) {
+				kept = append(kept, d)
+			}
+		}
+		decided = kept
+		defer func() {
+			visits[b]--
+			cur = cur[:len(cur)-1]
+			decided = saved
+			if hadEntered {
+				entered[b] = oldEntered
+			} else {
+				delete(entered, b)
+			}
+		}()
 		if len(b.Succs) == 0 {
 			count++
 			if count > limit {
@@ -447,14 +781,60 @@ func EnumPaths(fn *ssa.Function, maxVisit, limit int, f func(Path)) bool {
 			f(cp)
 			return true
 		}
-		for _, s := range b.Succs {
-			if !rec(s) {
+		for idx, s := range b.Succs {
+			ok, d := feasible(b, idx)
+			if !ok {
+				continue
+			}
+			// which incoming edge of s
+			n := 0
+			for j := 0; j < idx; j++ {
+				if b.Succs[j] == s {
+					n++
+				}
+			}
+			np := -1
+			for j, pb := range s.Preds {
+				if pb == b {
+					if n == 0 {
+						np = j
+						break
+					}
+					n--
+				}
+			}
+			before := decided
+			if d != nil {
+				decided = append(append([]decision(nil), decided...), *d)
+			}
+			cont := rec(s, np)
+			decided = before
+			if !cont {
 				return false
 			}
 		}
 		return true
 	}
-	return rec(fn.Blocks[0])
+	return rec(fn.Blocks[0], -1)
+}
+
+// sameOperand: identical SSA value, or equal constants (every use of a constant is its own *ssa.Const).
+func sameOperand(a, b ssa.Value) bool {
+	if a == b {
+		return true
+	}
+	if a == nil || b == nil {
+		return false
+	}
+	ca, oka := a.(*ssa.Const)
+	cb, okb := b.(*ssa.Const)
+	if !oka || !okb {
+		return false
+	}
+	if ca.Value == nil || cb.Value == nil {
+		return ca.Value == nil && cb.Value == nil
+	}
+	return ca.Value.Kind() == cb.Value.Kind() && constant.Compare(ca.Value, token.EQL, cb.Value)
 }
 
 // Instrs of a path in order.
@@ -464,6 +844,41 @@ func (p Path) Instrs(f func(ssa.Instruction)) {
 			f(i)
 		}
 	}
+}
+
+// ResolveAt returns the value v stands for on this path just after the block at position k was entered: phis are replaced by
+// the value of the edge the path came through (most recent entry of the phi's block at or before k), repeatedly.
+func (p Path) ResolveAt(k int, v ssa.Value) ssa.Value {
+	for n := 0; n < 16; n++ {
+		ph, ok := v.(*ssa.Phi)
+		if !ok {
+			return v
+		}
+		j := -1
+		for i := k; i >= 1; i-- {
+			if p[i] == ph.Block() {
+				j = i
+				break
+			}
+		}
+		if j < 1 {
+			return v
+		}
+		// which incoming edge: p[j-1] -> p[j]; with duplicate edges take the successor index the path used (first match)
+		pred := p[j-1]
+		e := -1
+		for idx, pb := range ph.Block().Preds {
+			if pb == pred {
+				e = idx
+				break
+			}
+		}
+		if e < 0 || e >= len(ph.Edges) {
+			return v
+		}
+		v, k = ph.Edges[e], j-1
+	}
+	return v
 }
 
 // TookEdge reports whether the path goes from block a directly to its successor with index idx.
@@ -619,8 +1034,45 @@ func Sources(v ssa.Value) []ssa.Value {
 	return out
 }
 
-// AnySource reports whether some source of v satisfies pred.
+// AnySource reports whether v comes from a source satisfying pred and from nowhere else: some source satisfies pred, and every
+// other source is a nil/zero constant (the declaration of the variable). A value that is the expected one on one path and something
+// else on another ( key = stored; if cond { key = other } ) does NOT qualify — it did under the first version of this function,
+// which let an alternative source slip in unnoticed (found when helper inlining merged such a value into a phi).
 func AnySource(v ssa.Value, pred func(ssa.Value) bool) bool {
+	if os.Getenv("HCSA_LOOSE_SOURCES") != "" {
+		return SomeSource(v, pred)
+	}
+	found := false
+	for _, s := range Sources(v) {
+		if pred(s) {
+			found = true
+			continue
+		}
+		if k, ok := s.(*ssa.Const); ok && (k.Value == nil || k.IsNil() || isZeroConst(k)) {
+			continue
+		}
+		return false
+	}
+	return found
+}
+
+func isZeroConst(k *ssa.Const) bool {
+	if k.Value == nil {
+		return true
+	}
+	switch k.Value.Kind() {
+	case constant.Int, constant.Float:
+		return constant.Sign(k.Value) == 0
+	case constant.String:
+		return constant.StringVal(k.Value) == ""
+	case constant.Bool:
+		return !constant.BoolVal(k.Value)
+	}
+	return false
+}
+
+// SomeSource reports whether some source of v satisfies pred (other sources may exist).
+func SomeSource(v ssa.Value, pred func(ssa.Value) bool) bool {
 	for _, s := range Sources(v) {
 		if pred(s) {
 			return true
@@ -725,7 +1177,7 @@ func FieldName(v ssa.Value) string {
 	}
 	tn := t.String()
 	if n, ok := t.(*types.Named); ok {
-		tn = n.Obj().Name()
+		tn = Active.CanonTypeName(n.Obj())
 		if n.Obj().Pkg() != nil {
 			tn = n.Obj().Pkg().Path() + "." + tn
 		}
